@@ -67,10 +67,13 @@ func (m *mySQLUndoInsertExecutor) ExecuteOn(ctx context.Context, dbType types.DB
 	for _, row := range afterImage.Rows {
 		pkValueList := make([]interface{}, 0)
 
-		for _, col := range row.Columns {
-			if col.KeyType == types.PrimaryKey.Number() {
-				pkValueList = append(pkValueList, col.Value)
-			}
+		// the key values in the order of the WHERE clause (table meta), not in the order of the image columns
+		pkList, err := GetOrderedPkList(afterImage, row, dbType)
+		if err != nil {
+			return err
+		}
+		for _, col := range pkList {
+			pkValueList = append(pkValueList, col.Value)
 		}
 
 		if _, err = stmt.Exec(pkValueList...); err != nil {
